@@ -10,7 +10,7 @@ use serde_json::{json, Value};
 pub fn def() -> PropDef {
     PropDef {
         id: "C12",
-        rule: "set_flags: all 65536 header words x all 65536 low argument halves (upper half 0) plus all words x {each single upper bit, 0xffff, 16 seed-chosen upper halves} x 64 low patterns; set_opcode/set_rcode: all words x all 256 arguments; set_response (method and associated function): all words x {true,false}; set_tid: all words x 8 ids; on three base packets (with OPT, without, and the 12-byte header-only packet of ParsedPacket::empty()); every ordered pair of 45 setter instances x 40 header words on a freshly parsed packet; distinct classes = (setter, whether a bit outside the field was at stake, argument class)",
+        rule: "set_flags: all 65536 header words x all 65536 low argument halves (upper half 0) plus all words x {each single upper bit, 0xffff, 16 seed-chosen upper halves} x 64 low patterns; set_opcode/set_rcode: all words x all 256 arguments; set_response (method and associated function): all words x {true,false}; set_tid: all words x 8 ids; on three base packets (with OPT, without, and the 12-byte header-only packet of ParsedPacket::empty()); every ordered pair of 45 setter instances x 40 header words on a freshly parsed packet; one setter (63 instances, every single flag bit among them) x 10 header words on objects with 8 histories of settling calls (in-place decompression, question memo fill, insertion, recompute, rename); distinct classes = (setter, whether a bit outside the field was at stake, argument class)",
         run,
         replay,
         bounds: |_| json!({"header_words": 65536, "set_flags_low_halves": 65536, "upper_halves": 34, "opcode_rcode_args": 256, "tids": 12}),
@@ -258,8 +258,94 @@ fn run(ctx: &mut Ctx, rep: &mut Report) {
         }
         rep.class("pairs of setters on a fresh packet");
     }
+    // one setter on an object with a history: calls that settle the packet (decompress it, fill the question
+    // memo, insert a record) come first, in both orders; the setter must behave as on a fresh object
+    {
+        let mut menu: Vec<Setter> = vec![Setter::Response(true), Setter::Response(false), Setter::ResponseAssoc(true), Setter::ResponseAssoc(false), Setter::Tid(0), Setter::Tid(0xffff), Setter::Tid(0x3412)];
+        for v in [0u8, 1, 2, 4, 8, 15, 16, 0x80, 0xff] {
+            menu.push(Setter::Opcode(v));
+            menu.push(Setter::Rcode(v));
+        }
+        for b in 0..32 {
+            menu.push(Setter::Flags(1u32 << b));
+        }
+        for a in [0u32, 0xffff, 0xffff_ffff, 0x780f, 0x87f0, 0x5aa5_a55a] {
+            menu.push(Setter::Flags(a));
+        }
+        let words: Vec<u16> = vec![0, 0xffff, 0x8180, 0x0100, 0x8583, 0x7800, 0x000f, 0x87f0, 0x0800, 0xf7ff];
+        let mut gi = 0u64;
+        for (bi, base) in bases().iter().enumerate() {
+            for h in 0..HISTORIES {
+                for &w in &words {
+                    gi += 1;
+                    if !ctx.mine(gi) {
+                        continue;
+                    }
+                    for s in &menu {
+                        let r = (|| -> Result<(), (String, String)> {
+                            let mut pp = object_for(base).map_err(|e| ("setup".to_string(), e))?;
+                            caught(|| history(&mut pp, h)).map_err(|p| (format!("history:panic:{}", panic_site(&p)), format!("the calls before the setter panicked: {}", p)))?;
+                            let p = pp.packet().to_vec();
+                            apply(&mut pp, &p, w, *s).map_err(|(sig, what)| (format!("with_history:{}", sig), format!("after history {} ({}): {}", h, HISTORY_NAMES[h], what)))
+                        })();
+                        rep.transitions += 1;
+                        if let Err(e) = r {
+                            rep.violation(&e.0, e.1, json!({"base": bi, "word": w, "history": h, "setter": format!("{:?}", s)}));
+                        }
+                    }
+                    rep.states += 1;
+                }
+            }
+        }
+        rep.class("one setter on an object with a history");
+    }
     rep.sample(|| json!({"base": hex(&bases()[0]), "word": "0x8180", "setter": "Flags(0x00000100)", "expected_word": "0x0100 | (0x8180 & 0x780f)"}));
     rep.evaluations = rep.transitions;
+}
+
+const HISTORIES: usize = 8;
+const HISTORY_NAMES: [&str; HISTORIES] = ["uncompress through a cursor", "question_raw0", "uncompress through a cursor, question_raw0", "question_raw0, uncompress through a cursor", "insert_rr_from_string, question_raw0", "question, insert_rr_from_string", "uncompress through a cursor, recompute, question_raw", "question_raw0, rename"];
+
+/// calls made before the setter under test (their own results are other properties' business)
+fn history(pp: &mut ParsedPacket, h: usize) {
+    // in-place decompression through the public cursor (`recompute()` alone has the documented precondition
+    // that the bytes were decompressed just before)
+    fn settle(pp: &mut ParsedPacket) {
+        if let Some(mut it) = pp.into_iter_question() {
+            let _ = it.uncompress();
+        }
+    }
+    match h {
+        0 => settle(pp),
+        1 => {
+            let _ = pp.question_raw0();
+        }
+        2 => {
+            settle(pp);
+            let _ = pp.question_raw0();
+        }
+        3 => {
+            let _ = pp.question_raw0();
+            settle(pp);
+        }
+        4 => {
+            let _ = pp.insert_rr_from_string(Section::Additional, "x.y. 1 IN A 1.2.3.4");
+            let _ = pp.question_raw0();
+        }
+        5 => {
+            let _ = pp.question();
+            let _ = pp.insert_rr_from_string(Section::Additional, "x.y. 1 IN A 1.2.3.4");
+        }
+        6 => {
+            settle(pp);
+            let _ = pp.recompute();
+            let _ = pp.question_raw();
+        }
+        _ => {
+            let _ = pp.question_raw0();
+            let _ = pp.rename_with_raw_names(&[1, b'k', 0], &[1, b'a', 0], true);
+        }
+    }
 }
 
 fn parse_setter(s: &str) -> Option<Setter> {
@@ -285,6 +371,11 @@ fn replay(case: &Value) -> Result<String, String> {
         Some(s) => vec![parse_setter(s).ok_or("bad setter")?],
     };
     let (mut base, mut w) = (base, w);
+    if let Some(h) = case["history"].as_u64() {
+        println!("history {}: {}", h, HISTORY_NAMES[h as usize % HISTORIES]);
+        history(&mut pp, h as usize);
+        base = pp.packet().to_vec();
+    }
     if let Some(first) = case["first"].as_str().and_then(parse_setter) {
         println!("header word {:04x}, first {:?}", w, first);
         apply(&mut pp, &base, w, first).map_err(|(sig, what)| format!("[{}] {}", sig, what))?;
